@@ -356,6 +356,15 @@ class has_node_shorter_reexport:
 
 
 # ---------------------------------------------------------------------------------------------- placeholder stubs of other libraries (C16, C10, C11)
+def CALLS(log, name):
+    """The records of the calls to `name` in a ghost call log, in call order."""
+    return [r for r in log if r[0] == name]
+
+
+def WRITES(log):
+    return [r for r in log if r[0].endswith(".write")]
+
+
 def PLACEHOLDER_CLASS(class_name, nc):
     conv = CONV(class_name, nc, True)
     ann = ('\n@PythonName("' + class_name + '")') if class_name != conv else ""
@@ -384,23 +393,26 @@ class create_outside_package_class:
         return len(class_path.split(".")) >= 2
 
     def ensures_calls(class_path, out_path, naming_convention, created_module_paths, result):
-        return len(EXT) == 8 and EXT[0][0] == "pathlib.Path.__truediv__" and EXT[2][0] == "pathlib.Path.mkdir" \
-            and EXT[5][0] == "pathlib.Path.exists" and EXT[6][0] == "pathlib.Path.open"
+        return len(CALLS(EXT, "pathlib.Path.__truediv__")) == 2 and len(CALLS(EXT, "pathlib.Path.mkdir")) == 1 \
+            and len(CALLS(EXT, "pathlib.Path.exists")) == 1 and len(CALLS(EXT, "pathlib.Path.open")) == 1 \
+            and len(WRITES(EXT)) == 1
 
     def ensures_layout(class_path, out_path, naming_convention, created_module_paths, result):
         parts = class_path.split(".")
-        return EXT[0][1] == out_path and EXT[0][2] == "/".join(parts[:-1]) \
-            and EXT[3][2] == parts[-2] + ".sdsstub" and EXT[6][1] == EXT[5][1]
+        d = CALLS(EXT, "pathlib.Path.__truediv__")
+        return d[0][1] == out_path and d[0][2] == "/".join(parts[:-1]) and d[1][2] == parts[-2] + ".sdsstub" \
+            and CALLS(EXT, "pathlib.Path.open")[0][1] == CALLS(EXT, "pathlib.Path.exists")[0][1]
 
     def ensures_rewrite_unless_created_in_this_run(class_path, out_path, naming_convention, created_module_paths, result):
         module_path = "/".join(class_path.split(".")[:-1])
-        append = EXT[5][2] is True and module_path in old(created_module_paths)
-        return EXT[6][2] == ("a" if append else "w")
+        append = CALLS(EXT, "pathlib.Path.exists")[0][2] is True and module_path in old(created_module_paths)
+        return CALLS(EXT, "pathlib.Path.open")[0][2] == ("a" if append else "w")
 
     def ensures_text(class_path, out_path, naming_convention, created_module_paths, result):
         parts = class_path.split(".")
         cls_text = PLACEHOLDER_CLASS(parts[-1], naming_convention)
-        return EXT[7][2] == (cls_text if EXT[6][2] == "a" else PLACEHOLDER_HEADER(".".join(parts[:-1]), naming_convention) + cls_text)
+        mode = CALLS(EXT, "pathlib.Path.open")[0][2]
+        return WRITES(EXT)[0][2] == (cls_text if mode == "a" else PLACEHOLDER_HEADER(".".join(parts[:-1]), naming_convention) + cls_text)
 
     def ensures_registered(class_path, out_path, naming_convention, created_module_paths, result):
         module_path = "/".join(class_path.split(".")[:-1])
@@ -446,25 +458,32 @@ class run_stub_generator_wiring:
 
     def ensures_calls(src_dir_path, out_dir_path, docstring_style, is_test_run, convert_identifiers,
                       type_source_preference, type_source_warning, result):
-        return len(EXT) == 5 and EXT[0][0] == "get_api" and EXT[1][0] == "pathlib.PurePath.joinpath" \
-            and EXT[2][0] == "API.to_json_file" and EXT[3][0] == "generate_stub_data" and EXT[4][0] == "create_stub_files"
+        return len(CALLS(EXT, "get_api")) == 1 and len(CALLS(EXT, "pathlib.PurePath.joinpath")) == 1 \
+            and len(CALLS(EXT, "API.to_json_file")) == 1 and len(CALLS(EXT, "generate_stub_data")) == 1 \
+            and len(CALLS(EXT, "create_stub_files")) == 1
 
     @clause(props=["C15", "C14"])
     def ensures_options_reach_the_analyser(src_dir_path, out_dir_path, docstring_style, is_test_run, convert_identifiers,
                                            type_source_preference, type_source_warning, result):
-        return EXT[0][1] == src_dir_path and EXT[0][2] == docstring_style and EXT[0][3] == is_test_run \
-            and EXT[0][4] == type_source_preference and EXT[0][5] == type_source_warning
+        g = CALLS(EXT, "get_api")[0]
+        return g[1] == src_dir_path and g[2] == docstring_style and g[3] == is_test_run \
+            and g[4] == type_source_preference and g[5] == type_source_warning
 
     @clause(props=["C10"])
     def ensures_inventory_file(src_dir_path, out_dir_path, docstring_style, is_test_run, convert_identifiers,
                                type_source_preference, type_source_warning, result):
-        return EXT[1][1] == out_dir_path and EXT[1][2] == src_dir_path.stem + "__api.json" \
-            and EXT[2][1] == EXT[0][6] and EXT[2][2] == EXT[1][3]
+        g = CALLS(EXT, "get_api")[0]
+        j = CALLS(EXT, "pathlib.PurePath.joinpath")[0]
+        w = CALLS(EXT, "API.to_json_file")[0]
+        return j[1] == out_dir_path and j[2] == src_dir_path.stem + "__api.json" and w[1] == g[6] and w[2] == j[3]
 
     @clause(props=["C10", "C09"])
     def ensures_generation_on_the_requested_directory(src_dir_path, out_dir_path, docstring_style, is_test_run,
                                                       convert_identifiers, type_source_preference, type_source_warning, result):
-        gen = EXT[3][1]
-        return EXT[3][2] == out_dir_path and EXT[4][3] == out_dir_path and EXT[4][1] == gen and EXT[4][2] == EXT[3][3] \
-            and gen.api == EXT[0][6] \
+        g = CALLS(EXT, "get_api")[0]
+        d = CALLS(EXT, "generate_stub_data")[0]
+        c = CALLS(EXT, "create_stub_files")[0]
+        gen = d[1]
+        return d[2] == out_dir_path and c[3] == out_dir_path and c[1] == gen and c[2] == d[3] \
+            and gen.api == g[6] \
             and gen.naming_convention == (NamingConvention.SAFE_DS if convert_identifiers else NamingConvention.PYTHON)
